@@ -28,6 +28,7 @@ const (
 	NFSERR_BADHANDLE   = 10001 // Invalid file handle
 	NFSERR_NOT_SYNC    = 10002 // Update synchronization mismatch (sattrguard3)
 	NFSERR_NOTSUPP     = 10004 // Operation not supported
+	NFSERR_TOOSMALL    = 10005 // Buffer or request is too small
 	NFSERR_JUKEBOX     = 10008 // Server busy, try again later (used during policy drain)
 	// NFSERR_DELAY is sent when the server is temporarily busy (rate limit
 	// exceeded, operation timed out). NFSv3 has no status of its own for this;
